@@ -1,12 +1,16 @@
 import SctpVerif.Spec.SenderSpec
+import SctpVerif.Spec.ShiftSpec
 import SctpVerif.Driver.Util
 /-! line protocol for the direct-drive sender harness (`as …`): predicates only for now -/
 namespace Drv.Assoc
 open Drv SenderSpec
 
-abbrev St := SenderSpec.St
+structure St where
+  s : SenderSpec.St := {}
+  sh : ShiftSpec.St := {}
+  deriving Inhabited
 
-def step (st : St) (op impl : List String) : St × List String :=
+def stepSender (st : SenderSpec.St) (op impl : List String) : SenderSpec.St × List String :=
   match op with
   | "new" :: _mtu :: _rcv :: minCwnd :: _il :: _tsn :: peerRwnd :: _ =>
     match impl with
@@ -25,5 +29,10 @@ def step (st : St) (op impl : List String) : St × List String :=
       ({ st' with obs := post, haveObs := true, pendingCheck := none }, v)
     | none => ({ st with obs := post, haveObs := true }, checkObs st post)
   | _ => ({ st with pendingCheck := some ("op", op ++ ["->"] ++ impl) }, [])
+
+def step (st : St) (op impl : List String) : St × List String :=
+  let (s, v) := stepSender st.s op impl
+  let (sh, e) := ShiftSpec.step st.sh op impl
+  ({ s := s, sh := sh }, v ++ e.toList)
 
 end Drv.Assoc
